@@ -39,7 +39,7 @@ def oracle(ctx, case, steps, ctor_err):
         for k in meta.nodes:
             g = meta.nodes[k].get('graph')
             have = sorted(g.nodes) if g is not None else []
-            want = sorted(members.get(k, []))
+            want = sorted(set(members.get(k, [])))       # a set: an atom merged twice into one coarse node records it twice
             if have != want:
                 ctx.fail(suites.slim(case), f'level {lvl}: coarse node {k} carries fine nodes {have[:8]} but '
                                             f'{want[:8]} record it')
